@@ -356,6 +356,26 @@ def check_sinks(ctx, fb):
     check_shr(ctx, fb)
 
 
+def masked_only(it, l, depth):
+    """every definition of local l is `x & y` or a plain copy of a local with that property: the value is a masked part of a limb
+    (the role of the carried low bits in a multi-limb right shift), whatever the variable is called"""
+    if depth > 4:
+        return False
+    defs = [s2["rv"] for b2 in it.blocks if not b2["cleanup"] for s2 in b2["stmts"] if s2["k"] == "assign" and s2["p"]["l"] == l and not s2["p"]["proj"]]
+    if not defs:
+        return False
+    for d in defs:
+        if d["k"] == "bin" and d["op"] == "BitAnd":
+            continue
+        if d["k"] == "use":
+            o = d["o"]
+            pl = o.get("cp") or o.get("mv")
+            if pl is not None and not pl["proj"] and masked_only(it, pl["l"], depth + 1):
+                continue
+        return False
+    return True
+
+
 def check_shr(ctx, fb):
     it = fb.need(G + "shr")
     ctx.touch(it)
@@ -370,9 +390,14 @@ def check_shr(ctx, fb):
             if e[0] == "store_through_value":
                 bad.append(("store through an untracked pointer", e[-1]))
     # collect assignments whose destination is an element of the limb array: recognise by MIR (deref of the as_mut pointer, index)
-    cvar = local_index(it, "c")
+    # the limb view of the result, by role: the local that receives `result.as_mut()`
+    cvar = None
+    for b in it.blocks:
+        t = b["term"]
+        if not b["cleanup"] and t["k"] == "call" and re.search(r"::as_mut$", t.get("resolved") or t.get("callee") or "") and t.get("dest") and not t["dest"]["proj"]:
+            cvar = t["dest"]["l"]
     if cvar is None:
-        ctx.fail("R19-3", "shr", "anchor: local `c` (limb view of the result) not found", loc(it))
+        ctx.fail("R19-3", "shr", "anchor: no limb view (`.as_mut()`) of the result found", loc(it))
         return
     allowed = 0
     for bi, b in enumerate(it.blocks):
@@ -423,9 +448,9 @@ def check_shr(ctx, fb):
                     nm = it.locals[src]["name"]
                     hops += 1
                 cst = a.get("c", {}).get("v") if "c" in a else None
-                shl_sites.append((nm, cst, s["sp"][0]))
+                shl_sites.append((nm if not (src is not None and masked_only(it, src, 0)) else "<carried low bits>", cst, s["sp"][0]))
     for nm, cst, line in shl_sites:
-        if not (nm == "carrier" or str(cst) == "1"):
+        if not (nm == "<carried low bits>" or str(cst) == "1"):
             bad.append(("left shift of `%s` (only the mask constant and the carried low bits may be shifted left)" % (nm or cst), ("", line)))
     guards = 0
     for p in paths:
